@@ -1,5 +1,9 @@
 use vcore::exec;
 
+// Every SelectExecutor allocates a zeroed 10 MiB arena per query; pool those blocks (see vcore::bigalloc)
+#[global_allocator]
+static GLOBAL: vcore::bigalloc::ArenaCache = vcore::bigalloc::ArenaCache;
+
 fn usage() -> ! {
     eprintln!("usage: vcheck check <ID> <quick|thorough> | vcheck replay <path> | vcheck sql <stmt>...");
     std::process::exit(2)
